@@ -131,10 +131,15 @@ func savedBody(b []byte) ([]map[string]interface{}, string) {
 func runBody(c Case, emit Emitter) {
 	document.VerifResetGlobals()
 	ctx := &bodyCtx{doc: document.New(), other: document.New(), uid: map[interface{}]int{}, byUID: map[int]*document.Paragraph{}, next: 1}
-	foreign := ctx.other.AddParagraph("foreign")
+	// the foreign handle carries the same text as this document's first element, and every fourth
+	// element repeats that text, so that removal by structural equality instead of identity shows
+	foreign := ctx.other.AddParagraph("T0")
 	emit(Ev{"ev": "reset", "case": c.ID})
 	for i, op := range c.Steps {
 		tok := fmt.Sprintf("T%d", i)
+		if i%4 == 3 {
+			tok = "T0"
+		}
 		d := ctx.doc
 		ret, pmsg := guard(func() string {
 			switch op.Name() {
